@@ -168,6 +168,17 @@ def run(tier, seed, rep):
                                        extra={"db": db, "rowId": row["id"], "rowMono": fix(row["mono"]),
                                               "rowAvg": fix(row["avg"]) if row["avg"] is not None else [],
                                               "rowComp": row["comp"]}))
+    xrows = obo.xlmod()
+    if not thorough:
+        xrows = rnd.sample(xrows, 250)
+    for j, row in enumerate(xrows):
+        name = row["name"]
+        spelling = ("X:" + name) if not any(ch in name for ch in "[]|#") and rnd.random() < 0.5 else "XLMOD:" + row["id"]
+        A = anngen.empty("K")
+        A["internal"] = [{"i": 0, "mods": [{"v": "s:" + spelling, "m": rnd.choice([1, 1, 2])}]}]
+        evs.append(agree_event(pp, f"xlmod{j}", A, rnd.choice(["p", "b", "y"]), 1, 0, False, "", False, "ann", kind="rowagree",
+                               extra={"db": "xlmod", "rowId": row["id"], "rowMono": fix(row["mono"] or 0.0), "rowAvg": [],
+                                      "rowComp": []}))
     res = core.validate_traces("Trace_Mass", evs, "C03")
     rep.add_trace("vocabulary_sweep", evs, res, sig=lambda e: (e["db"], e["rowId"], e["mono"]))
     return rep.finish(rule="seeded annotations (all positions and kinds, multipliers, alternatives, tags, intervals, "
